@@ -632,8 +632,9 @@ func GasToFee(gas uint64, price *uint256.Int) *uint256.Int {
 	return new(uint256.Int).Mul(uint256.NewInt(gas), price)
 }
 
-// NegativeField returns the name of a count, period or ratio of r that is negative, "" if there is none.
-func (r *GovParams) NegativeField() string {
+// OutOfRangeField returns the name of a count, period or ratio of r that is negative,
+// or of a ratio (a percentage) above 100; "" if there is none.
+func (r *GovParams) OutOfRangeField() string {
 	r.mtx.RLock()
 	defer r.mtx.RUnlock()
 
@@ -655,6 +656,19 @@ func (r *GovParams) NegativeField() string {
 		{"minSignedBlocks", r.minSignedBlocks},
 	} {
 		if f.val < 0 {
+			return f.name
+		}
+	}
+	for _, f := range []struct {
+		name string
+		val  int64
+	}{
+		{"minSelfStakeRatio", r.minSelfStakeRatio},
+		{"maxUpdatableStakeRatio", r.maxUpdatableStakeRatio},
+		{"maxIndividualStakeRatio", r.maxIndividualStakeRatio},
+		{"slashRatio", r.slashRatio},
+	} {
+		if f.val > 100 {
 			return f.name
 		}
 	}
